@@ -93,9 +93,13 @@ def judge(prog: Any, ref: Any, run: dict[str, Any], info: dict[str, Any]) -> lis
     problems: list[tuple[str, str, str]] = []
     if info.get("mode") == "crash":
         return judge_crash(prog, ref, run, info)
-    if not run["quiescent"]:
+    final_wf = run["fs"]["wf_status"] in ("SUCCEEDED", "TERMINAL", "CANCELED", "FAILED_CONTINUE", "STOPPED")
+    if not run["quiescent"] and not final_wf:
         problems.append(("does-not-complete", f"with sweeps injected the run did not quiesce: {run['res'].aborted}", "noquiesce"))
     else:
+        # (a finished workflow with wait-retry messages still circulating when the step budget ends - a late StartStage for
+        # a first-of join that fired long ago is re-polled up to max_stage_wait_retries times, and every sweep may add
+        # another - has its outcome; it is compared like any other)
         for c, m in compare_outcome(prog, ref, run):
             problems.append((c.split(":")[0], m, c))
         status_racy, _ = racy_sets(prog, ref["fs"])
